@@ -39,7 +39,7 @@ JudgeRead(r) ==
      ELSE IF d.loglam \notin {S.loglam, S.loglam_ext} THEN "loglam beyond the last pixel neither 0 nor affine"
      ELSE IF ~TablesFollow(req, d) THEN "TablesFollow"
      ELSE IF Without(d, {"loglam"}) # Without(S, {"loglam", "loglam_ext"}) THEN "differs from Specified"
-     ELSE IF Run(req) # S THEN "harness: Run differs from Specified"
+     ELSE IF Len(req) <= 8 /\ Run(req) # S THEN "harness: Run differs from Specified"
      ELSE ""
 
 JudgeAppend(r) ==
